@@ -61,6 +61,23 @@ def phase_case(case, rec):
                 pre=dict(rec.get('store_before', case['pre'])))
 
 
+def monitor_ext(case, rec):
+    """external-writer cases: a task whose result is in the cache when it is SUBMITTED must be loaded, not executed"""
+    viol = []
+    ev = rec['events']
+    executed = {int(l.split(' ')[1]) for l in rec['execs'] if l.startswith('X ')}
+    for x, w in case['ext'].items():
+        x, w = int(x), int(w)
+        bx = next((i for i, e in enumerate(ev) if e[0] == 'B' and e[1] == x), None)
+        sw = next((i for i, e in enumerate(ev) if e[0] == 'S' and e[1] == w), None)
+        if bx is None or sw is None or sw < bx or x not in executed:
+            continue
+        if ev[sw][2] != 1 or w in executed:
+            viol.append(f'task {w} was cached (by another writer, while task {x} ran) before it was submitted, but it was '
+                        f'submitted with use_cache={ev[sw][2]} and {"executed" if w in executed else "not executed"} instead of loaded')
+    return viol
+
+
 def ref_plain(case):
     """plain sequential dependency-first evaluation with nothing cached"""
     n = len(case['ty'])
